@@ -1796,15 +1796,22 @@ func (d *Driver) FamJSON(perType int) {
 	}
 	nils["struct-value"], nils["int"] = notAMessage{1}, 7
 	for name, v := range nils {
-		e := &DEv{C: "json", Dir: "unmarshal", Fl: "none", Key: name, Nilmsg: 1}
-		guard(&e.St, &e.Note, func() {
-			if err := csproto.JSONUnmarshaler(v).UnmarshalJSON([]byte("{}")); err != nil {
-				e.St = "err"
-			} else {
-				e.St = "ok"
-			}
-		})
-		d.emitD(e)
+		// (whatever the text: an object, what MarshalJSON gives for a nil message - nothing -, white space, an options-laden call)
+		for ii, in := range [][]byte{[]byte("{}"), nil, {}, []byte(" \n\t"), []byte("null"), []byte(`{"x":1}`)} {
+			e := &DEv{C: "json", Dir: "unmarshal", Fl: "none", Key: fmt.Sprintf("%s/input-%d", name, ii), Nilmsg: 1}
+			guard(&e.St, &e.Note, func() {
+				opts := []csproto.JSONOption{}
+				if ii%2 == 1 {
+					opts = append(opts, csproto.JSONAllowUnknownFields(true), csproto.JSONAllowPartialMessages(true))
+				}
+				if err := csproto.JSONUnmarshaler(v, opts...).UnmarshalJSON(in); err != nil {
+					e.St = "err"
+				} else {
+					e.St = "ok"
+				}
+			})
+			d.emitD(e)
+		}
 	}
 	// non-nil values no runtime owns: an error in both directions, never a panic
 	for name, v := range map[string]interface{}{"struct-ptr": &notAMessage{X: 1}, "struct-value": notAMessage{1}, "int": 7, "string": "x"} {
